@@ -3,6 +3,7 @@ package main
 import (
 	"fmt"
 	"go/token"
+	"go/types"
 	"strings"
 
 	"golang.org/x/tools/go/ssa"
@@ -36,6 +37,7 @@ var c01Table = map[string]string{
 
 func runC01(c *Ctx) {
 	p := c.P
+	ruleCompositeDecoderFits(c, "R01.3")
 	// R01.1
 	for _, s := range []struct{ fn, callee string }{
 		{"(*rt/middleware.Context).LookupRoute", "(rt/middleware.Router).Lookup"},
@@ -641,4 +643,103 @@ func ruleOperationLookedUpByRelativePath(c *Ctx, rule string) {
 		c.obI(rule, ci, "parameters-for-operation", okP, "the parameters are those the analyzer lists for (method, template without base path)", "path argument: origin "+describeOrigin(bad))
 	}
 	c.obRF(rule, ar, "asks-for-handler", n >= 1, "AddRoute asks the API for the operation's handler", "")
+}
+
+// ruleCompositeDecoderFits: the composite decoder (a path segment mixing parameters and literal text, /files/{name}.json)
+// yields for each parameter either a piece of the captured text cut out BEHIND the test that the template's literal
+// text is really there (HasSuffix / Index >= 0 / CutSuffix ok), or the empty value: text that does not fit the
+// template never becomes a parameter value (the required-parameter check then refuses the request). Shared by C01
+// (dispatch hands on the captured values) and C03 (binding reads them).
+func ruleCompositeDecoderFits(c *Ctx, rule string) {
+	f := c.P.Fn("rt/middleware.decodeCompositParams")
+	value := paramOf(f, 1)
+	isValue := vOrigins(oIsValue(value), oConstString("")) // (as a loop: the rest of the captured text, or "" once nothing is left)
+	found := func(cond ssa.Value, branch bool) bool {
+		cnd, b := stripNot(cond, branch)
+		// strings.HasSuffix(value, lit) / HasPrefix / Contains is true
+		if call := asCall(cnd); call != nil {
+			switch calleeName(&call.Call) {
+			case "strings.HasSuffix", "strings.HasPrefix", "strings.Contains":
+				return b && isValue(call.Call.Args[0])
+			}
+		}
+		// the ok of strings.CutSuffix / CutPrefix / Cut
+		if ex, isEx := cnd.(*ssa.Extract); isEx {
+			if call := asCall(ex.Tuple); call != nil {
+				switch calleeName(&call.Call) {
+				case "strings.CutSuffix", "strings.CutPrefix", "strings.Cut":
+					return b && ex.Index == call.Type().(*types.Tuple).Len()-1 && isValue(call.Call.Args[0])
+				}
+			}
+		}
+		// strings.Index(value, lit) >= 0 (in its spellings)
+		bo, ok := cnd.(*ssa.BinOp)
+		if !ok {
+			return false
+		}
+		isIdx := func(v ssa.Value) bool {
+			call := asCall(v)
+			if call == nil {
+				return false
+			}
+			n := calleeName(&call.Call)
+			return (n == "strings.Index" || n == "strings.LastIndex") && isValue(call.Call.Args[0])
+		}
+		k, isK := constInt(bo.Y)
+		if !isK || !isIdx(bo.X) {
+			return false
+		}
+		switch bo.Op {
+		case token.GEQ:
+			return k == 0 && b
+		case token.GTR:
+			return k == -1 && b
+		case token.LSS:
+			return k == 0 && !b
+		case token.NEQ:
+			return k == -1 && b
+		case token.EQL:
+			return k == -1 && !b
+		}
+		return false
+	}
+	n := 0
+	for _, ci := range callsIn(f, "builtin append") {
+		call, ok := ci.(*ssa.Call)
+		if !ok || ci.Parent() != f || typeStr(call.Type()) != "[]string" {
+			continue
+		}
+		if isVals, _ := allOrigins(call.Call.Args[0], oIsValue(paramOf(f, 4)), oCall(-1, "builtin append")); !isVals {
+			continue
+		}
+		if isNames, _ := allOrigins(call.Call.Args[0], oIsValue(paramOf(f, 3))); isNames {
+			continue
+		}
+		elems, isLit := sliceLitElems(call.Call.Args[1])
+		if !isLit {
+			continue
+		}
+		for _, e := range elems {
+			if s, isC := constString(e); isC && s == "" {
+				continue
+			}
+			n++
+			okE := false
+			why := "the value appended is " + describe(e)
+			switch x := e.(type) {
+			case *ssa.Slice:
+				okE = isValue(x.X) && guardedBy(call, nil, found)
+				if !okE {
+					why = "a piece of the captured text is taken although the template's literal was not found in it"
+				}
+			case *ssa.Extract:
+				// before, _ := strings.CutSuffix(value, lit) behind ok
+				if cc := asCall(x.Tuple); cc != nil && strings.HasPrefix(calleeName(&cc.Call), "strings.Cut") {
+					okE = isValue(cc.Call.Args[0]) && guardedBy(call, nil, found)
+				}
+			}
+			c.obI(rule, call, "composite-value-only-when-literal-fits", okE, "a composite segment yields a piece of the captured text only behind the test that the template's literal text is present (otherwise the empty value): text that does not fit the template never becomes a parameter value", why)
+		}
+	}
+	c.obRF(rule, f, "composite-decoder-cuts-values", n >= 2, "the composite decoder cuts the parameter values out of the captured text", fmt.Sprintf("%d cut values", n))
 }
